@@ -901,7 +901,7 @@ def run(ctx, shard):
                     work[:] = np.eye(work.shape[0]) / work.shape[0]
                     ctx.hit('model/argument-buffer-refilled-after-set')
                 nparam = sum(p.numel() for p in model.parameters())
-                for scale in (0.1, 1.0, 10.0):
+                for scale in (1e-9, 0.1, 1.0, 10.0):  # 1e-9: tiny parameters (a seeded absolute ridge in the polar chart only shows there)
                     for rep in range(2 if ctx.tier == 'quick' else 3):
                         theta = rng.normal(size=nparam) * scale
                         numqi.optimize.set_model_flat_parameter(model, theta)
